@@ -40,6 +40,72 @@ theorem C17_live_distinct (es kept rej : List Elem) (hs : kept.Sublist es) (hp :
   rw [List.map_append, List.nodup_append] at h1
   exact ⟨h1.1, fun e he r hr => h1.2.2 e.id (List.mem_map_of_mem he) r.id (List.mem_map_of_mem hr)⟩
 
+/-- (C17/C01, `Extend`) with ANY scripted source iterator — one that reports `None` and then yields
+    again, with any `size_hint` (the code never asks) — `extend` appends exactly the items before
+    the first `None`, or stops in a sanctioned way with the vector well formed -/
+theorem C17_extend_partial (X : Ctx) (hq : ∀ k, X.o.panicAt k = false) (it : Vec.IterScript) (s : St) (es : List Elem)
+    (h : Abs X s.v es) :
+    (∃ s' new, Vec.extend X it s = (.ok (), s') ∧ Abs X s'.v (es ++ new) ∧ new.map (·.val) = takeSome it) ∨
+    (∃ p s' acc, Vec.extend X it s = (.error p, s') ∧ Panic.benign p = true ∧ Abs X s'.v acc) := by
+  unfold Vec.extend
+  simp only [VM.bind_run]
+  rcases forIter_push_spec X hq it (it.length + 1) s es (by omega) h with
+    ⟨s', new, hrun, habs, hv⟩ | ⟨p, s', acc, hrun, hb, habs⟩
+  · rw [hrun]; exact .inl ⟨s', new, rfl, habs, hv⟩
+  · rw [hrun]; exact .inr ⟨p, s', acc, rfl, hb, habs⟩
+
+/-- (C17/C01, `FromIterator`) same for `collect`: the new vector holds exactly the items before the
+    first `None`; on a sanctioned stop the partly built vector is destroyed and the focus restored -/
+theorem C17_collect_partial (X : Ctx) (hq : ∀ k, X.o.panicAt k = false) (it : Vec.IterScript) (s : St)
+    (hz : 0 < X.c.elemSize) :
+    (∃ o s' new, Vec.collect X it s = (.ok (o, afterNone it), s') ∧ s'.v = s.v ∧ Abs X o new ∧
+        new.map (·.val) = takeSome it) ∨
+    (∃ p s', Vec.collect X it s = (.error p, s') ∧ Panic.benign p = true ∧ s'.v = s.v) := by
+  unfold Vec.collect
+  simp only [VM.bind_run]
+  have hx : (∃ a s', (do
+        VM.lift X (new X.env)
+        Vec.forIter X (Vec.push X) (it.length + 1) it : VM Vec.IterScript) { s with v := {} } = (.ok a, s') ∧
+        (a = afterNone it ∧ ∃ new, Abs X s'.v new ∧ new.map (·.val) = takeSome it)) ∨
+      (∃ p s' acc, (do
+        VM.lift X (new X.env)
+        Vec.forIter X (Vec.push X) (it.length + 1) it : VM Vec.IterScript) { s with v := {} } = (.error p, s') ∧
+        Panic.benign p = true ∧ Abs X s'.v acc) := by
+    have h1 := lift_new_empty X hz s
+    simp only [VM.bind_run, h1]
+    rcases forIter_push_spec X hq it (it.length + 1) { s with v := {} } [] (by omega) (Abs.sentinel_abs X hz) with
+      ⟨s', new, hrun, habs, hv⟩ | ⟨p, s', acc, hrun, hb, habs⟩
+    · exact .inl ⟨_, s', hrun, rfl, new, by simpa using habs, hv⟩
+    · exact .inr ⟨p, s', acc, hrun, hb, habs⟩
+  rcases withLocal_spec X hq _ s (fun a s' => a = afterNone it ∧ ∃ new, Abs X s'.v new ∧ new.map (·.val) = takeSome it) hx with
+    ⟨a, s', hrun, ha, new, habs, hv⟩ | ⟨p, s', hrun, hb, hv⟩
+  · rw [hrun]
+    subst ha
+    exact .inl ⟨s'.v, _, new, rfl, rfl, habs, hv⟩
+  · rw [hrun]
+    exact .inr ⟨p, s', rfl, hb, hv⟩
+
+/-- (C17, `dedup` with ANY scripted equality — `X.o.eqScript` is arbitrary: inconsistent, not
+    reflexive, not symmetric —, `dedup_by` with ANY two-argument predicate of the call number, and
+    `dedup_by_key` with ANY key function of the call number): a sublist of live elements survives,
+    the others are destroyed exactly once, no allocator traffic -/
+theorem C17_dedup_partial (X : Ctx) (hq : ∀ k, X.o.panicAt k = false) (s : St) (es : List Elem) (h : Abs X s.v es) :
+    (∃ s' kept rej, Vec.dedup X s = (.ok (), s') ∧ Abs X s'.v kept ∧ kept.Sublist es ∧ (kept ++ rej).Perm es ∧
+      ownEvents s'.sys.tr = ownEvents s.sys.tr ++ dropEvents X rej ∧ s'.v.cap = s.v.cap ∧
+      s'.v.blk.map (·.bid) = s.v.blk.map (·.bid)) ∧
+    (∀ f : Vec.Pred2, ∃ s' kept rej, Vec.dedup_by_pred X f s = (.ok (), s') ∧ Abs X s'.v kept ∧ kept.Sublist es ∧
+      (kept ++ rej).Perm es ∧ ownEvents s'.sys.tr = ownEvents s.sys.tr ++ dropEvents X rej ∧ s'.v.cap = s.v.cap ∧
+      s'.v.blk.map (·.bid) = s.v.blk.map (·.bid)) ∧
+    (∀ key : Nat → Elem → Int, ∃ s' kept rej, Vec.dedup_by_key X key s = (.ok (), s') ∧ Abs X s'.v kept ∧
+      kept.Sublist es ∧ (kept ++ rej).Perm es ∧ ownEvents s'.sys.tr = ownEvents s.sys.tr ++ dropEvents X rej ∧
+      s'.v.cap = s.v.cap ∧ s'.v.blk.map (·.bid) = s.v.blk.map (·.bid)) :=
+  ⟨dedup_by_spec X hq _ (eqElem_sameSpec X hq) s es h,
+   fun f => dedup_by_spec X hq _ (pred2_sameSpec X hq f) s es h,
+   fun key => dedup_by_spec X hq _ (key_sameSpec X hq key) s es h⟩
+
+/-- the loop stops at the FIRST `None`: whatever the iterator would have yielded later is not taken -/
+example : takeSome [some 1, none, some 2] = [1] ∧ afterNone [some 1, none, some 2] = [some 2] := by decide
+
 /-- non-vacuity / what an inconsistent predicate looks like: accept on even call numbers only -/
 example : keptFrom (fun k _ => k % 2 == 0) 0 [⟨1, 5⟩, ⟨2, 5⟩, ⟨3, 5⟩] = [⟨1, 5⟩, ⟨3, 5⟩] := by decide
 
@@ -47,4 +113,7 @@ end MV.Props
 
 #print axioms MV.Props.C17_retain_partial
 #print axioms MV.Props.C17_live_distinct
+#print axioms MV.Props.C17_dedup_partial
+#print axioms MV.Props.C17_extend_partial
+#print axioms MV.Props.C17_collect_partial
 #print axioms MV.Props.keptFrom_filter
